@@ -21,6 +21,7 @@ import (
 	"net/netip"
 	"net/url"
 	"os"
+	"runtime"
 	"sort"
 	"strconv"
 	"strings"
@@ -74,6 +75,7 @@ type v34Exchange struct {
 	ReqChunkMax          int
 	ReqEOFWithData       bool // last chunk is returned together with io.EOF
 	ReqEOFDelayMs        int  // the body reader pauses that long (virtual) before it reports its end
+	ReqStartDelayMs      int  // the client waits that long (virtual) before it starts the round trip
 	ReqTrailers          []v34Field
 	ReqTrailerUndeclared bool // the body also adds a trailer that was never declared
 
@@ -126,6 +128,14 @@ type v34Config struct {
 	// the client sent its first RESET_STREAM frame every server datagram is lost (so the
 	// acknowledgement of the reset is lost and the client retransmits RESET_STREAM).
 	ResetAckLossMs int
+	// FinLoss selects a third scripted loss pattern: from the client's first STREAM frame on
+	// a request stream every server datagram is lost (nothing of the request is
+	// acknowledged); the first client packet that carries nothing of a request stream but
+	// its FIN (a STREAM frame of length 0) is lost; when the client then sends request
+	// stream data again (its PTO probe, which cannot hold all the unacknowledged data) the
+	// network turns perfect. The peer then acknowledges everything except the packet with
+	// the FIN, which the client has to declare lost and retransmit.
+	FinLoss bool
 }
 
 func v34Pattern(lane uint32, off int64) byte {
@@ -821,6 +831,9 @@ func (run *v34Run) doExchange(ctx context.Context, cc *clientConn, ex *v34Exchan
 			req.Trailer[f.Name] = nil
 		}
 	}
+	if ex.ReqStartDelayMs > 0 {
+		time.Sleep(time.Duration(ex.ReqStartDelayMs) * time.Millisecond)
+	}
 	resp, err := cc.RoundTrip(req)
 	if err != nil {
 		obs.RTErr = err
@@ -861,7 +874,8 @@ var (
 // diagnosis of a stuck run (an endpoint that discards every packet it receives after a key
 // update gets its own violation key), (c) the scripted loss pattern of the key-update
 // scenario, which needs to know which datagram carries an ack-eliciting packet, and (d) with
-// VERIF_DEBUG set, a readable trace dumped to /tmp/C34 when a run gets stuck.
+// VERIF_DEBUG set, a readable trace and a dump of all goroutines written to the run's output
+// directory ($VERIF_OUT, else /tmp/C34) when a run gets stuck.
 type v34Tap struct {
 	mu    sync.Mutex
 	t0    time.Time
@@ -875,6 +889,67 @@ type v34Tap struct {
 	CloseFrame      string
 	CloseAfterReset bool
 	resetStreamSeen bool
+	// Per side: the streams the side sent STREAM frames on, the 1-RTT packets that carried
+	// the FIN of a stream, the streams the side reset, and the 1-RTT packets the side
+	// declared lost (for the diagnosis of a stall).
+	dataSent  [2]map[int64]bool
+	finPkts   [2]map[int64][]int64
+	resetSent [2]map[int64]bool
+	lostPkts  [2]map[int64]bool
+}
+
+// v34ParseStreamFrame decodes the qlog rendering of a STREAM frame
+// ("STREAM ID=4 FIN Offset=814 Length=0").
+func v34ParseStreamFrame(f string) (id int64, fin bool, off, length int64, ok bool) {
+	if !strings.HasPrefix(f, "STREAM ID=") {
+		return
+	}
+	for _, w := range strings.Fields(f)[1:] {
+		k, v, _ := strings.Cut(w, "=")
+		n, _ := strconv.ParseInt(v, 10, 64)
+		switch k {
+		case "ID":
+			id = n
+		case "FIN":
+			fin = true
+		case "Offset":
+			off = n
+		case "Length":
+			length = n
+		}
+	}
+	return id, fin, off, length, true
+}
+
+// finNeverRetransmitted lists (under mu) the streams of one side whose FIN travelled only
+// in packets that the side itself declared lost, and that the side did not reset: the
+// peer can never see the end of such a stream.
+func (t *v34Tap) finNeverRetransmitted(side int) []string {
+	var out []string
+	for id, pkts := range t.finPkts[side] {
+		all := !t.resetSent[side][id] && len(pkts) > 0
+		for _, p := range pkts {
+			all = all && t.lostPkts[side][p]
+		}
+		if all {
+			out = append(out, fmt.Sprintf("stream %d: FIN sent in packets %v, all declared lost", id, pkts))
+		}
+	}
+	sort.Strings(out)
+	return out
+}
+
+// finNeverSent lists (under mu) the request streams the client sent data on but never a
+// FIN nor a RESET_STREAM.
+func (t *v34Tap) finNeverSent() []string {
+	var out []string
+	for id := range t.dataSent[0] {
+		if id%4 == 0 && len(t.finPkts[0][id]) == 0 && !t.resetSent[0][id] {
+			out = append(out, fmt.Sprintf("stream %d", id))
+		}
+	}
+	sort.Strings(out)
+	return out
 }
 
 type v34TapSide struct {
@@ -936,6 +1011,22 @@ func (h *v34TapHandler) Handle(_ context.Context, rec slog.Record) error {
 		for _, f := range frames {
 			if strings.HasPrefix(f, "RESET_STREAM") {
 				t.resetStreamSeen = true
+				var id int64
+				if _, err := fmt.Sscanf(f, "RESET_STREAM ID=%d", &id); err == nil {
+					if t.resetSent[h.side] == nil {
+						t.resetSent[h.side] = map[int64]bool{}
+					}
+					t.resetSent[h.side][id] = true
+				}
+			}
+			if id, fin, _, _, ok := v34ParseStreamFrame(f); ok && ptype == "1RTT" {
+				if t.finPkts[h.side] == nil {
+					t.finPkts[h.side], t.dataSent[h.side] = map[int64][]int64{}, map[int64]bool{}
+				}
+				t.dataSent[h.side][id] = true
+				if fin {
+					t.finPkts[h.side][id] = append(t.finPkts[h.side][id], pnum)
+				}
 			}
 			if strings.HasPrefix(f, "CONNECTION_CLOSE") && !strings.HasPrefix(f, "CONNECTION_CLOSE Code=NO_ERROR") && t.CloseFrame == "" {
 				t.CloseFrame, t.CloseAfterReset = "CS"[h.side:h.side+1]+" sent "+f, t.resetStreamSeen
@@ -958,6 +1049,12 @@ func (h *v34TapHandler) Handle(_ context.Context, rec slog.Record) error {
 		sd.ConsecDiscarded++
 	case "recovery:packet_lost":
 		sd.Lost++
+		if ptype == "1RTT" {
+			if t.lostPkts[h.side] == nil {
+				t.lostPkts[h.side] = map[int64]bool{}
+			}
+			t.lostPkts[h.side][pnum] = true
+		}
 	}
 	if v34Debug {
 		var sb strings.Builder
@@ -982,6 +1079,13 @@ func (h *v34TapHandler) Handle(_ context.Context, rec slog.Record) error {
 }
 
 var v34Debug = os.Getenv("VERIF_DEBUG") != ""
+
+var v34DebugDir = func() string {
+	if d := os.Getenv("VERIF_OUT"); d != "" {
+		return d
+	}
+	return "/tmp/C34"
+}()
 
 func v34QUICConfig(buf [3]int64) *quic.Config {
 	return &quic.Config{
@@ -1112,6 +1216,54 @@ func (run *v34Run) execute(t *testing.T) *v34RunStats {
 			return !(dir == vhnS2C && armed.Load() && nowMs() < lossUntil.Load())
 		}
 	}
+	if cfg.FinLoss {
+		// phase 0: before the request; 1: request under way, server datagrams lost;
+		// 2: the packet with nothing but the FIN was sent (and lost); 3: the client sent
+		// request stream data again, the network is perfect from that datagram on.
+		var phase atomic.Int32
+		var pendFinOnly atomic.Bool
+		var maxEnd int64 // highest request stream offset sent so far
+		tap.OnSent = func(side int, pnum int64, eliciting bool, frames []string) {
+			if side != 0 {
+				return
+			}
+			reqData, finOnly, resent := false, false, false
+			for _, f := range frames {
+				if id, fin, off, length, ok := v34ParseStreamFrame(f); ok && id%4 == 0 {
+					reqData = reqData || length > 0
+					finOnly = finOnly || fin && length == 0
+					resent = resent || length > 0 && off < maxEnd
+					maxEnd = max(maxEnd, off+length)
+				}
+			}
+			switch phase.Load() {
+			case 0:
+				if reqData {
+					phase.Store(1)
+				}
+			case 1:
+				if finOnly && !reqData {
+					phase.Store(2)
+					pendFinOnly.Store(true)
+				} else if resent {
+					// the probe came before the FIN (the congestion window held it
+					// back): the pattern did not materialise, stop interfering
+					phase.Store(3)
+				}
+			case 2:
+				if reqData {
+					phase.Store(3)
+				}
+			}
+		}
+		nw.Filter = func(dir int, b []byte) bool {
+			ph := phase.Load()
+			if dir == vhnS2C {
+				return ph != 1 && ph != 2
+			}
+			return !pendFinOnly.Swap(false)
+		}
+	}
 	hctx, hcancel := context.WithTimeout(ctx, 200*time.Second)
 	cc, err := tr.dial(hctx, v34ServerAddr.String(), nil)
 	hcancel()
@@ -1152,18 +1304,21 @@ func (run *v34Run) execute(t *testing.T) *v34RunStats {
 		synctest.Wait()
 	}
 	st.VirtualMs = time.Since(start).Milliseconds()
-	if done && v34Debug && (cfg.KeyUpdateLossMs > 0 || cfg.ResetAckLossMs > 0) {
+	if done && v34Debug {
 		tap.mu.Lock()
-		os.WriteFile(fmt.Sprintf("/tmp/C34/done-%s-%d.log", run.c.Stream, run.c.Index), []byte(strings.Join(tap.lines, "\n")), 0o644)
+		os.WriteFile(fmt.Sprintf(v34DebugDir+"/done-%s-%d.log", run.c.Stream, run.c.Index), []byte(strings.Join(tap.lines, "\n")), 0o644)
 		tap.mu.Unlock()
 	}
 	if !done {
 		st.Stuck = true
 		st.StuckIDs = map[int]bool{}
 		if v34Debug {
+			gbuf := make([]byte, 4<<20)
+			gbuf = gbuf[:runtime.Stack(gbuf, true)]
+			os.WriteFile(fmt.Sprintf(v34DebugDir+"/goroutines-%s-%d.txt", run.c.Stream, run.c.Index), gbuf, 0o644)
 			tap.mu.Lock()
-			os.MkdirAll("/tmp/C34", 0o755)
-			os.WriteFile(fmt.Sprintf("/tmp/C34/stuck-%s-%d.log", run.c.Stream, run.c.Index), []byte(strings.Join(tap.lines, "\n")), 0o644)
+			os.MkdirAll(v34DebugDir, 0o755)
+			os.WriteFile(fmt.Sprintf(v34DebugDir+"/stuck-%s-%d.log", run.c.Stream, run.c.Index), []byte(strings.Join(tap.lines, "\n")), 0o644)
 			tap.mu.Unlock()
 		}
 		var stuck []string
@@ -1184,6 +1339,24 @@ func (run *v34Run) execute(t *testing.T) *v34RunStats {
 				// discards everything its peer sends, on a perfect network
 				key = "exchange-stuck-" + name + "-discards-every-packet-after-key-update"
 			}
+		}
+		for i, name := range []string{"client", "server"} {
+			if lost := tap.finNeverRetransmitted(i); len(lost) > 0 && key == "exchange-stuck-after-faults-stopped" {
+				// the end of a stream was sent only in packets that their sender declared
+				// lost, and it never sent it again although the network has been perfect since
+				key = "exchange-stuck-" + name + "-stream-fin-lost-never-retransmitted"
+				tapState += "; " + name + " " + strings.Join(lost, ", ")
+			}
+		}
+		reqWritten := true
+		for _, ex := range cfg.Ex {
+			reqWritten = reqWritten && (ex.ReqKind == v34ReqNone || run.cli[ex.ID].BodyClosed.Load())
+		}
+		if open := tap.finNeverSent(); len(open) > 0 && reqWritten && key == "exchange-stuck-after-faults-stopped" {
+			// the transport wrote every request to its end (it closed the request bodies)
+			// and reset none of these streams, yet their FIN was never put in a packet
+			key = "exchange-stuck-client-stream-fin-never-sent"
+			tapState += "; client never sent the FIN of " + strings.Join(open, ", ") + " although every request body was written and closed"
 		}
 		closed := tap.CloseFrame
 		tap.mu.Unlock()
@@ -1613,7 +1786,7 @@ func TestVerif_C34(t *testing.T) {
 	r := verifrt.Start(t, "C34")
 	defer r.Finish()
 	r.ExitIfAbnormal()
-	r.SetRule("case = one HTTP/3 connection (real transport and server over real QUIC endpoints) in a synctest bubble. Stream 'exchange': PRNG fault profile of the datagram network (loss<=25%, dup<=15%, reorder<=30%, jitter, consecutive-drop cap, fault phase 0.2-120 virtual s then clean), QUIC buffer sizes per side, 1-N concurrent exchanges each with method/host/path/query, 0-30 header fields (multi-valued, empty, 16 KiB, obs-text), cookies, request body 0-1 MiB in PRNG chunks with declared/unknown/short/long Content-Length, request trailers, handler mode (read-then-write or duplex), status, response header set, header mutation after commit, response body in PRNG Writes with Flush pattern and declared/undeclared/short/long Content-Length, announced and TrailerPrefix trailers. Streams 'key-update-under-loss' and 'reset-retransmitted': the same exchanges under a scripted loss pattern (client datagrams with ack-eliciting packets lost around the first QUIC key update; server datagrams lost right after the client reset a request stream). Stream 'content-length-0-with-trailers': perfect network. One evaluation per exchange; non-trivial = exchange carrying body bytes in at least one direction on a connection whose network dropped, duplicated or held back at least one datagram; distinct by (method, kinds, body sizes, chunking, header counts, fault counters)")
+	r.SetRule("case = one HTTP/3 connection (real transport and server over real QUIC endpoints) in a synctest bubble. Stream 'exchange': PRNG fault profile of the datagram network (loss<=25%, dup<=15%, reorder<=30%, jitter, consecutive-drop cap, fault phase 0.2-120 virtual s then clean), QUIC buffer sizes per side, 1-N concurrent exchanges each with method/host/path/query, 0-30 header fields (multi-valued, empty, 16 KiB, obs-text), cookies, request body 0-1 MiB in PRNG chunks with declared/unknown/short/long Content-Length, request trailers, handler mode (read-then-write or duplex), status, response header set, header mutation after commit, response body in PRNG Writes with Flush pattern and declared/undeclared/short/long Content-Length, announced and TrailerPrefix trailers. Streams 'key-update-under-loss', 'reset-retransmitted' and 'fin-lost-after-probe': the same exchanges under a scripted loss pattern (client datagrams with ack-eliciting packets lost around the first QUIC key update; server datagrams lost right after the client reset a request stream; no acknowledgement of a multi-packet request body until the client's PTO probe while the separate packet with the stream's FIN is lost). Stream 'content-length-0-with-trailers': perfect network. One evaluation per exchange; non-trivial = exchange carrying body bytes in at least one direction on a connection whose network dropped, duplicated or held back at least one datagram; distinct by (method, kinds, body sizes, chunking, header counts, fault counters)")
 	r.Assume("fault decisions are a function of (seed, direction, datagram sequence number); goroutine scheduling inside the bubble is not replayed bit-exactly")
 	r.Assume("net/url, net/http.Header and http.DetectContentType (standard library) are trusted; the harness never decodes HTTP/3 or QPACK bytes")
 	r.Assume("a handler that writes more than its declared Content-Length is accepted in the documented net/http way: Write reports an error and exactly the declared bytes travel (or the client read fails)")
@@ -1629,7 +1802,7 @@ func TestVerif_C34(t *testing.T) {
 			sum = append(sum, ex.summary())
 		}
 		c.Describe(map[string]any{"faults": cfg.Faults, "fault_phase_ms": cfg.FaultPhaseMs, "cli_buf": cfg.CliBuf, "srv_buf": cfg.SrvBuf, "disable_compression": cfg.DisableCompression,
-			"key_update_loss_ms": cfg.KeyUpdateLossMs, "key_update_after_packet": cfg.KeyUpdateAfter, "reset_ack_loss_ms": cfg.ResetAckLossMs, "exchanges": sum})
+			"key_update_loss_ms": cfg.KeyUpdateLossMs, "key_update_after_packet": cfg.KeyUpdateAfter, "reset_ack_loss_ms": cfg.ResetAckLossMs, "fin_loss_script": cfg.FinLoss, "exchanges": sum})
 		run := &v34Run{cfg: cfg, c: c}
 		for range cfg.Ex {
 			run.srv = append(run.srv, &v34SrvObs{})
@@ -1649,8 +1822,8 @@ func TestVerif_C34(t *testing.T) {
 		run.evaluate(st, r)
 		nn, tp := st.Net, st.Tap
 		if v34Debug && run.nviol > 0 {
-			os.MkdirAll("/tmp/C34", 0o755)
-			os.WriteFile(fmt.Sprintf("/tmp/C34/viol-%s-%d.log", c.Stream, c.Index), []byte(strings.Join(tp.lines, "\n")), 0o644)
+			os.MkdirAll(v34DebugDir, 0o755)
+			os.WriteFile(fmt.Sprintf(v34DebugDir+"/viol-%s-%d.log", c.Stream, c.Index), []byte(strings.Join(tp.lines, "\n")), 0o644)
 		}
 		faulted := nn.Dropped[0]+nn.Dropped[1]+nn.Duped[0]+nn.Duped[1]+nn.Reordered[0]+nn.Reordered[1]+nn.Filtered[0]+nn.Filtered[1] > 0
 		for _, ex := range cfg.Ex {
@@ -1675,8 +1848,11 @@ func TestVerif_C34(t *testing.T) {
 		if cfg.ResetAckLossMs > 0 && nn.Filtered[1] > 0 {
 			r.Event("reset_ack_lost_scripted_runs", 1)
 		}
+		if cfg.FinLoss && nn.Filtered[0] > 0 && tp.Side[0].Lost > 0 {
+			r.Event("fin_only_packet_lost_scripted_runs", 1)
+		}
 		r.Event("datagrams", nn.Sent[0]+nn.Sent[1])
-		r.Event("datagrams_dropped", nn.Dropped[0]+nn.Dropped[1]+nn.Filtered[0])
+		r.Event("datagrams_dropped", nn.Dropped[0]+nn.Dropped[1]+nn.Filtered[0]+nn.Filtered[1])
 		r.Event("datagrams_duplicated", nn.Duped[0]+nn.Duped[1])
 		r.Event("datagrams_held_back", nn.Reordered[0]+nn.Reordered[1])
 		r.Event("quic_packets_logged", tp.Side[0].Sent+tp.Side[0].Received+tp.Side[1].Sent+tp.Side[1].Received)
@@ -1733,6 +1909,36 @@ func TestVerif_C34(t *testing.T) {
 		runCase(c, cfg)
 	})
 
+	// Scripted loss of a request stream's FIN: the request body (several packets) is sent,
+	// its end follows a little later in a packet of its own (the body reader pauses before
+	// it reports io.EOF); no acknowledgement gets through until the client's PTO probe was
+	// sent, and the packet with the FIN is lost. The probe cannot hold all the
+	// unacknowledged stream data. From the probe on the network is perfect: the server
+	// acknowledges everything but the packet with the FIN, the client has to declare that
+	// packet lost and send the FIN again, else the handler waits for the end of the body
+	// for ever.
+	nf := r.N(3, 8)
+	r.CasesParallel("fin-lost-after-probe", nf, 4, func(c *verifrt.Case) {
+		rng := c.Rng
+		cfg := &v34Config{Faults: vhnFaults{BaseDelayMs: 2 + rng.IntN(30)}, FaultPhaseMs: 30000, CleanBoundS: 120, NetSeed: rng.Uint64(), FinLoss: true}
+		ex := v34GenExchange(rng, 0, 1000, 6)
+		ex.Method, ex.Duplex, ex.EarlyHints = []string{"POST", "PUT"}[rng.IntN(2)], false, false
+		// header and body fill more than one packet (the probe has to be cut short) but no
+		// more than two: with the FIN packet they fit in the congestion window the client
+		// is left with after the handshake (as little as 3000 bytes)
+		ex.ReqHeaders, ex.CookiePairs = v34ShortFields(rng, rng.IntN(2), "X-Q"), nil
+		ex.ReqKind, ex.ReqBody, ex.ReqDeclared = v34ReqUnknown, 1300+rng.Int64N(400), -1
+		if rng.IntN(2) == 0 {
+			ex.ReqKind, ex.ReqDeclared = v34ReqExact, ex.ReqBody
+		}
+		ex.ReqChunkMax, ex.ReqReadMax = []int{1200, 4096, 65536}[rng.IntN(3)], 4096
+		ex.ReqTrailers, ex.ReqTrailerUndeclared = nil, false
+		ex.ReqEOFWithData, ex.ReqEOFDelayMs = false, 5+rng.IntN(30)
+		ex.ReqStartDelayMs = 1000 + rng.IntN(1000) // the handshake is confirmed and acknowledged by then
+		cfg.Ex = []*v34Exchange{ex}
+		runCase(c, cfg)
+	})
+
 	// Responses with an explicit Content-Length: 0 that still carry trailers, on a perfect
 	// network: trailers announced in the Trailer header, trailers only known after the header
 	// was written (net/http.TrailerPrefix), or both.
@@ -1766,7 +1972,7 @@ func TestVerif_C34(t *testing.T) {
 	r.CasesParallel("exchange", n, 8, func(c *verifrt.Case) {
 		runCase(c, v34GenConfig(c.Rng, maxEx, maxBody, maxHeaders))
 	})
-	n += nk + nr + nz
+	n += nk + nr + nz + nf
 	r.Require("runs_completed", int64(n*8/10))
 	r.Require("handler_observations_checked", int64(n))
 	r.Require("client_observations_checked", int64(n))
@@ -1778,4 +1984,5 @@ func TestVerif_C34(t *testing.T) {
 	r.Require("late_header_mutations_checked", 10)
 	r.Require("key_update_under_scripted_loss_runs", int64(nk/2))
 	r.Require("reset_ack_lost_scripted_runs", int64(nr/2))
+	r.Require("fin_only_packet_lost_scripted_runs", int64(nf/2))
 }
